@@ -126,7 +126,7 @@ Lemma recover_frame_b : forall c s l1 d, Inv s -> frame_b s l1 d ->
   NoDup (keys l1) -> keys l1 = keys (tabs s) ->
   (forall n t1, lookup n l1 = Some t1 -> part_rows (t_parts t1) = content s n) ->
   match recover_c c d with
-  | RHang => False
+  | RFail => False
   | ROut r => good_recovery r (content s) (content s)
   end.
 Proof.
@@ -164,7 +164,7 @@ Qed.
 Theorem flush_cuts : forall c o s l1 k,
   Inv s -> flush_mid true c o s = Val l1 ->
   match recover_c c (cut (at_rest s) (flush_effects s l1) k) with
-  | RHang => False
+  | RFail => False
   | ROut r => good_recovery r (content s) (content s)
   end.
 Proof.
@@ -254,7 +254,7 @@ Qed.
 Theorem recovery_cuts : forall c s k,
   Inv s ->
   match recover_c c (cut (at_rest s) (recover_effects s) k) with
-  | RHang => False
+  | RFail => False
   | ROut r => good_recovery r (content s) (content s)
   end.
 Proof.
